@@ -412,6 +412,12 @@ def check_dummy(cls, spec, rng, viols, errs, custom):
     nf = U_vector(shells, types, "u").shape[1]
     T = rng.normal(size=(max(1, nf + int(rng.integers(-2, 3))), nf))
     judge(cm.call(obj.construct_array_lincomb, T, full, **kw), expected_dummy(cls, shells, types, extra, T1=T), name + ".construct_array_lincomb")
+    if len(set(types)) == 1 and len(spec) >= 2:
+        # documented shorthand: a one-entry list applies to every shell; the caller's list must stay a one-entry list
+        one = [full[0]]
+        judge(cm.call(obj.construct_array_lincomb, T, one, **kw), expected_dummy(cls, shells, types, extra, T1=T), name + ".construct_array_lincomb(one-entry coord_type)")
+        if one != [full[0]]:
+            viols.append(cm.viol("%s.construct_array_lincomb modified the caller's one-entry coord_type list: %r" % (name, one), "dummy_argument_mutated", cls=cls))
     return n
 
 
